@@ -335,6 +335,10 @@ func main() {
 		nStop := c.Budget(400, 6000)
 		nOverlap := c.Budget(500, 8000)
 		nArrive := c.Budget(150, 2500) // x 2-5 syncs x ~6 requests
+		if !haveK8sState {
+			c.Note("REDUCED: the optional shim into the k8s store's unexported state does not build: stop and overlap streams skipped")
+			nStop, nOverlap = 0, 0
+		}
 		nStopRT := min(c.Budget(6, 24), 24) // real time: ~2.5 s each, run concurrently
 		var rt []Case
 		for i := 0; i < nStopRT; i++ {
